@@ -194,11 +194,13 @@ def _check(case, impl):
 
 
 def compare(case, impl, model):
+    if impl == "HANG-skipped":
+        return None  # not run: the harness gave up after several HANG/RUNAWAY cases (those are reported)
     return None if impl == model else f"impl={impl!r} model={model!r}"
 
 
 def is_trivial(case, impl):
-    return impl in ("", "bad-case", ";st=0") or impl.startswith(("CRASH", "panic", "TIMEOUT", "spawn-error", "tell-error"))
+    return impl in ("", "bad-case", ";st=0") or impl.startswith(("CRASH", "panic", "HANG", "LOST", "RUNAWAY", "spawn-error", "tell-error"))
 
 
 def tag(case, impl):
@@ -212,7 +214,19 @@ def tag(case, impl):
 
 
 def oracle(case, impl, judge):
-    if impl.startswith(("CRASH", "TIMEOUT", "panic", "spawn-error", "tell-error")):
+    if impl == "HANG-skipped":
+        return None
+    if impl.startswith("RUNAWAY"):
+        f = impl.split()
+        return (f"runaway re-delivery: delivery number {f[1]} happened although only {int(f[1]) - 1} are possible "
+                "(messages sent + Stash calls) - a message was delivered again without any Unstash; deliveries seen: " + " ".join(f[2:]))
+    if impl.startswith("LOST"):
+        return "a message sent to the actor was never delivered although the mailbox was drained (" + impl + ")"
+    if impl in ("CRASH deadline", "CRASH timeout-abort", "CRASH too-many-crashes"):
+        return None  # the engine stopped running cases; nothing was observed
+    if impl.startswith("HANG"):
+        return "the actor never quiesced / never reached a gate within the watchdog (" + impl + ")"
+    if impl.startswith(("CRASH", "panic", "spawn-error", "tell-error")):
         return "harness failed: " + impl
     if judge is not None:
         return None if judge.startswith("ok") else judge
